@@ -232,18 +232,67 @@ Proof.
       rewrite apply_upd_version; auto.
 Qed.
 
-Lemma step_req_outcome : forall w r F w' e wr,
-  step_req w r F = (w', e, wr) ->
-  let a := apply_policies (v_spec w) (v_st w) r in
+(* [acted w a w' e wr]: w' results from executing action a (state.NewState(job).Execute) on w,
+   or from doing nothing; everything below follows from this alone *)
+Definition acted (w : world) (a : action) (w' : world) (e wr : bool) : Prop :=
   outcome (v_spec w) (fst (exec (st_phase (v_st w)) a)) (snd (exec (st_phase (v_st w)) a)) w w' e wr.
+
+Lemma execute_outcome : forall w a r F w' e wr, execute w a r F = (w', e, wr) -> acted w a w' e wr.
 Proof.
-  intros w r F w' e wr H a. unfold step_req in H.
-  destruct (c_job (v_ctl w)); cbn [negb] in H; [|inversion H; subst; apply outcome_noop].
-  fold a in H. destruct (exec (st_phase (v_st w)) a) as [k u]. cbn [fst snd].
+  intros w a r F w' e wr H. unfold execute in H. unfold acted.
+  destruct (exec (st_phase (v_st w)) a) as [k u]. cbn [fst snd].
   destruct k.
   - apply (sync_job_outcome w u F); exact H.
   - apply (kill_pods_outcome true w r0 None u F); exact H.
   - apply (kill_pods_outcome true w RNone (Some (target_of a r)) u F); exact H.
+Qed.
+
+(* the delayed-action bookkeeping is invisible to the job status *)
+Lemma outcome_delays : forall sp k u w w' e wr d d',
+  outcome sp k u w w' e wr -> outcome sp k u (with_delays w d) (with_delays w' d') e wr.
+Proof. intros sp k u w w' e wr d d' O. destruct O. constructor; cbn; assumption. Qed.
+Lemma outcome_delays_l : forall sp k u w w' e wr d,
+  outcome sp k u (with_delays w d) w' e wr -> outcome sp k u w w' e wr.
+Proof. intros sp k u w w' e wr d O. destruct O. constructor; cbn in *; assumption. Qed.
+Lemma outcome_delays_r : forall sp k u w w' e wr d,
+  outcome sp k u w w' e wr -> outcome sp k u w (with_delays w' d) e wr.
+Proof. intros sp k u w w' e wr d O. destruct O. constructor; cbn in *; assumption. Qed.
+Lemma outcome_noop_d : forall sp k u w d, outcome sp k u w (with_delays w d) false false.
+Proof. intros. apply outcome_delays_r. apply outcome_noop. Qed.
+
+Lemma step_req_outcome : forall w r F w' e wr,
+  step_req w r F = (w', e, wr) -> acted w (apply_policies (v_spec w) (v_st w) r) w' e wr.
+Proof.
+  intros w r F w' e wr H. unfold step_req in H. unfold acted, apply_policies.
+  set (w0 := with_delays w (clean_pod_delay (c_delay (v_ctl w)) r)) in *.
+  change (v_spec w0) with (v_spec w) in H. change (v_st w0) with (v_st w) in H.
+  destruct (c_job (v_ctl w0)); cbn [negb] in H; [|inversion H; subst; apply outcome_noop_d].
+  destruct (apply_policies_d (v_spec w) (v_st w) r) as [a delayed]. cbn [fst].
+  destruct delayed.
+  - inversion H; subst. apply outcome_delays_r. apply outcome_noop_d.
+  - destruct (execute w0 a r F) as [[w1 e1] wr1] eqn:Hx.
+    pose proof (execute_outcome _ _ _ _ _ _ _ Hx) as O. unfold acted in O.
+    change (v_spec w0) with (v_spec w) in O. change (v_st w0) with (v_st w) in O.
+    apply outcome_delays_l in O.
+    destruct (negb e1 && negb (is_internal_action a)); inversion H; subst; auto.
+    apply outcome_delays_r. exact O.
+Qed.
+
+(* a timer that expires executes its action like a request, against the state as it is now *)
+Lemma fire_outcome : forall w w' e wr,
+  fire w = (w', e, wr) -> exists a e0, acted w a w' e0 wr.
+Proof.
+  intros w w' e wr H. unfold fire in H.
+  destruct (d_queue (c_delay (v_ctl w))) as [|[t cancelled] rest].
+  - inversion H; subst. exists ASync, false. apply outcome_noop.
+  - set (w0 := with_delays w _) in *.
+    destruct cancelled; [inversion H; subst; exists ASync, false; apply outcome_noop_d|].
+    destruct (c_job (v_ctl w0)); cbn [negb] in H; [|inversion H; subst; exists ASync, false; apply outcome_noop_d].
+    destruct (execute w0 (dt_action t) _ []) as [[w1 e1] wr1] eqn:Hx.
+    pose proof (execute_outcome _ _ _ _ _ _ _ Hx) as O. unfold acted in O.
+    change (v_spec w0) with (v_spec w) in O. change (v_st w0) with (v_st w) in O.
+    apply outcome_delays_l in O. inversion H; subst.
+    exists (dt_action t), e1. apply outcome_delays_r. exact O.
 Qed.
 
 (* ---------- facts about the (phase, action) table, by enumeration ---------- *)
@@ -280,12 +329,10 @@ Proof.
 Qed.
 
 (* ---------- T1: the phase moves only along the transition relation ---------- *)
-Theorem phase_transition_allowed : forall w r F w' e wr,
-  step_req w r F = (w', e, wr) ->
-  In (st_phase (v_st w')) (allowed (st_phase (v_st w))).
+Lemma phase_transition_allowed_gen : forall w a w' e wr,
+  acted w a w' e wr -> In (st_phase (v_st w')) (allowed (st_phase (v_st w))).
 Proof.
-  intros w r F w' e wr H. pose proof (step_req_outcome _ _ _ _ _ _ H) as O. cbv zeta in O.
-  set (a := apply_policies (v_spec w) (v_st w) r) in *.
+  intros w a w' e wr O. unfold acted in O.
   set (p := st_phase (v_st w)) in *.
   pose proof (tbl_targets_allowed_ok p a) as T. unfold tbl_targets_allowed in T.
   repeat rewrite andb_true_iff in T. destruct T as (((T1 & T2) & T3) & T4).
@@ -309,13 +356,13 @@ Definition tbl_aborted (p : phase) (a : action) : bool :=
 Lemma tbl_aborted_ok : forall p a, tbl_aborted p a = true.
 Proof. apply table_forall. vm_compute. reflexivity. Qed.
 
-Theorem aborted_left_only_by_resume : forall w r F w' e wr,
-  step_req w r F = (w', e, wr) ->
+Lemma aborted_left_only_by_resume_gen : forall w a w' e wr,
+  acted w a w' e wr ->
   st_phase (v_st w) = PhAborted -> st_phase (v_st w') <> PhAborted ->
-  apply_policies (v_spec w) (v_st w) r = AResume /\ st_phase (v_st w') = PhRestarting.
+  a = AResume /\ st_phase (v_st w') = PhRestarting.
 Proof.
-  intros w r F w' e wr H Hab Hne. pose proof (step_req_outcome _ _ _ _ _ _ H) as O. cbv zeta in O.
-  set (a := apply_policies (v_spec w) (v_st w) r) in *. rewrite Hab in O.
+  intros w a w' e wr O Hab Hne. unfold acted in O.
+  rewrite Hab in O.
   pose proof (tbl_aborted_ok PhAborted a) as T. cbn [tbl_aborted] in T.
   destruct (action_beq a AResume) eqn:Ea.
   - apply internal_action_dec_bl in Ea. split; auto. rewrite Ea in O. cbn in O.
@@ -337,15 +384,14 @@ Definition tbl_restart (p : phase) (a : action) : bool :=
 Lemma tbl_restart_ok : forall p a, tbl_restart p a = true.
 Proof. apply table_forall. vm_compute. reflexivity. Qed.
 
-Theorem retry_increments_once : forall w r F w' e wr,
-  step_req w r F = (w', e, wr) ->
+Lemma retry_increments_once_gen : forall w a w' e wr,
+  acted w a w' e wr ->
   let s := v_st w in let s' := v_st w' in
   (st_retry s' = st_retry s \/
    (st_retry s' = st_retry s + 1 /\ st_phase s' = PhRestarting /\ st_phase s <> PhRestarting)) /\
   (st_phase s <> PhRestarting -> st_phase s' = PhRestarting -> st_retry s' = st_retry s + 1).
 Proof.
-  intros w r F w' e wr H s s'. subst s s'. pose proof (step_req_outcome _ _ _ _ _ _ H) as O. cbv zeta in O.
-  set (a := apply_policies (v_spec w) (v_st w) r) in *.
+  intros w a w' e wr O s s'. subst s s'. unfold acted in O.
   pose proof (tbl_restart_ok (st_phase (v_st w)) a) as T. unfold tbl_restart in T.
   apply andb_true_iff in T. destruct T as [T1 T2].
   set (u := snd (exec (st_phase (v_st w)) a)) in *.
@@ -373,13 +419,13 @@ Qed.
 Lemma exec_restarting : forall a, snd (exec PhRestarting a) = URestarting.
 Proof. destruct a; reflexivity. Qed.
 
-Theorem maxretry_fails : forall w r F w' e wr,
-  step_req w r F = (w', e, wr) ->
+Lemma maxretry_fails_gen : forall w a w' e wr,
+  acted w a w' e wr ->
   st_phase (v_st w) = PhRestarting -> s_maxretry (v_spec w) <= st_retry (v_st w) ->
   (st_phase (v_st w') = PhRestarting \/ st_phase (v_st w') = PhFailed) /\
   (wr = true -> e = false -> st_phase (v_st w') = PhFailed /\ st_phase (w_st w') = PhFailed).
 Proof.
-  intros w r F w' e wr H Hre Hmax. pose proof (step_req_outcome _ _ _ _ _ _ H) as O. cbv zeta in O.
+  intros w a w' e wr O Hre Hmax. unfold acted in O.
   rewrite Hre, exec_restarting in O.
   assert (HM : forall s', moved (v_spec w) URestarting (v_st w) s' -> st_phase s' = PhFailed).
   { intros s' (b & Hr & Hp & Hp' & Hr'). rewrite Hp'. cbn.
@@ -394,24 +440,86 @@ Proof.
     split; [apply HM; exact M|]. rewrite Eq. apply HM; exact M.
 Qed.
 
+(* ---------- the same facts for a processed request and for an expiring delayed action ---------- *)
+Theorem phase_transition_allowed : forall w r F w' e wr,
+  step_req w r F = (w', e, wr) -> In (st_phase (v_st w')) (allowed (st_phase (v_st w))).
+Proof. intros. eapply phase_transition_allowed_gen. eapply step_req_outcome; eauto. Qed.
+Theorem phase_transition_allowed_fire : forall w w' e wr,
+  fire w = (w', e, wr) -> In (st_phase (v_st w')) (allowed (st_phase (v_st w))).
+Proof. intros w w' e wr H. destruct (fire_outcome _ _ _ _ H) as (a & e0 & O). eapply phase_transition_allowed_gen; eauto. Qed.
+
+Theorem aborted_left_only_by_resume : forall w r F w' e wr,
+  step_req w r F = (w', e, wr) ->
+  st_phase (v_st w) = PhAborted -> st_phase (v_st w') <> PhAborted ->
+  apply_policies (v_spec w) (v_st w) r = AResume /\ st_phase (v_st w') = PhRestarting.
+Proof. intros. eapply aborted_left_only_by_resume_gen; eauto. eapply step_req_outcome; eauto. Qed.
+(* a timer leaves Aborted only if the armed policy action was ResumeJob *)
+Theorem aborted_left_only_by_resume_fire : forall w w' e wr,
+  fire w = (w', e, wr) ->
+  st_phase (v_st w) = PhAborted -> st_phase (v_st w') <> PhAborted ->
+  st_phase (v_st w') = PhRestarting /\
+  exists t c rest, d_queue (c_delay (v_ctl w)) = (t, c) :: rest /\ dt_action t = AResume.
+Proof.
+  intros w w' e wr H Hab Hne. unfold fire in H.
+  destruct (d_queue (c_delay (v_ctl w))) as [|[t cancelled] rest] eqn:Eq.
+  - inversion H; subst. contradiction.
+  - set (w0 := with_delays w _) in *.
+    destruct cancelled; [inversion H; subst; cbn in Hne; contradiction|].
+    destruct (c_job (v_ctl w0)); cbn [negb] in H; [|inversion H; subst; cbn in Hne; contradiction].
+    destruct (execute w0 (dt_action t) _ []) as [[w1 e1] wr1] eqn:Hx.
+    pose proof (execute_outcome _ _ _ _ _ _ _ Hx) as O. inversion H; subst.
+    destruct (aborted_left_only_by_resume_gen w0 (dt_action t) w1 e1 wr O Hab Hne) as [A B].
+    split; [exact B|]. exists t, false, rest. auto.
+Qed.
+
+Theorem retry_increments_once : forall w r F w' e wr,
+  step_req w r F = (w', e, wr) ->
+  let s := v_st w in let s' := v_st w' in
+  (st_retry s' = st_retry s \/
+   (st_retry s' = st_retry s + 1 /\ st_phase s' = PhRestarting /\ st_phase s <> PhRestarting)) /\
+  (st_phase s <> PhRestarting -> st_phase s' = PhRestarting -> st_retry s' = st_retry s + 1).
+Proof. intros w r F w' e wr H. eapply retry_increments_once_gen. eapply step_req_outcome; eauto. Qed.
+Theorem retry_increments_once_fire : forall w w' e wr,
+  fire w = (w', e, wr) ->
+  let s := v_st w in let s' := v_st w' in
+  (st_retry s' = st_retry s \/
+   (st_retry s' = st_retry s + 1 /\ st_phase s' = PhRestarting /\ st_phase s <> PhRestarting)) /\
+  (st_phase s <> PhRestarting -> st_phase s' = PhRestarting -> st_retry s' = st_retry s + 1).
+Proof. intros w w' e wr H. destruct (fire_outcome _ _ _ _ H) as (a & e0 & O). eapply retry_increments_once_gen; eauto. Qed.
+
+Theorem maxretry_fails : forall w r F w' e wr,
+  step_req w r F = (w', e, wr) ->
+  st_phase (v_st w) = PhRestarting -> s_maxretry (v_spec w) <= st_retry (v_st w) ->
+  (st_phase (v_st w') = PhRestarting \/ st_phase (v_st w') = PhFailed) /\
+  (wr = true -> e = false -> st_phase (v_st w') = PhFailed /\ st_phase (w_st w') = PhFailed).
+Proof. intros. eapply maxretry_fails_gen; eauto. eapply step_req_outcome; eauto. Qed.
+Theorem maxretry_fails_fire : forall w w' e wr,
+  fire w = (w', e, wr) ->
+  st_phase (v_st w) = PhRestarting -> s_maxretry (v_spec w) <= st_retry (v_st w) ->
+  st_phase (v_st w') = PhRestarting \/ st_phase (v_st w') = PhFailed.
+Proof.
+  intros w w' e wr H Hre Hmax. destruct (fire_outcome _ _ _ _ H) as (a & e0 & O).
+  apply (maxretry_fails_gen w a w' e0 wr O Hre Hmax).
+Qed.
+
 (* ---------- T7: a request of an older job version is answered by a sync ---------- *)
 Theorem stale_request_syncs : forall sp st r,
   r_action r = None -> r_version r < st_version st -> apply_policies sp st r = ASync.
 Proof.
-  intros sp st r Ha Hv. unfold apply_policies. rewrite Ha.
+  intros sp st r Ha Hv. unfold apply_policies, apply_policies_d. rewrite Ha.
   destruct (is_internal_event (r_event r)); auto. destruct (r_uid r =? 0); auto.
   assert (E : (r_version r <? st_version st) = true) by (apply Z.ltb_lt; exact Hv). rewrite E. reflexivity.
 Qed.
 
 Theorem explicit_action_wins : forall sp st r a, r_action r = Some a -> apply_policies sp st r = a.
-Proof. intros. unfold apply_policies. rewrite H. reflexivity. Qed.
+Proof. intros. unfold apply_policies, apply_policies_d. rewrite H. reflexivity. Qed.
 
 (* ---------- T9: a failed reconciliation leaves no partial status on the API server ---------- *)
 Theorem api_fault_no_partial_status : forall w r F w' wr,
   step_req w r F = (w', true, wr) ->
   w_st w' = w_st w \/ (st_phase (v_st w) = PhNone /\ w_st w' = init_status (v_spec w) (v_st w)).
 Proof.
-  intros w r F w' wr H. pose proof (step_req_outcome _ _ _ _ _ _ H) as O. cbv zeta in O.
+  intros w r F w' wr H. pose proof (step_req_outcome _ _ _ _ _ _ H) as O. unfold acted in O.
   apply (oc_fault _ _ _ _ _ _ _ O). reflexivity.
 Qed.
 
@@ -419,18 +527,21 @@ Theorem api_status_is_cache_status_or_old : forall w r F w' e wr,
   step_req w r F = (w', e, wr) ->
   w_st w' = w_st w \/ w_st w' = v_st w' \/ (st_phase (v_st w) = PhNone /\ w_st w' = init_status (v_spec w) (v_st w)).
 Proof.
-  intros w r F w' e wr H. pose proof (step_req_outcome _ _ _ _ _ _ H) as O. cbv zeta in O.
+  intros w r F w' e wr H. pose proof (step_req_outcome _ _ _ _ _ _ H) as O. unfold acted in O.
   apply (oc_api _ _ _ _ _ _ _ O).
 Qed.
 
 (* ---------- T6: versions ---------- *)
+Lemma version_step_gen : forall w a w' e wr,
+  acted w a w' e wr -> st_version (v_st w) <= st_version (v_st w') <= st_version (v_st w) + 1.
+Proof.
+  intros w a w' e wr O. unfold acted in O.
+  destruct (oc_version _ _ _ _ _ _ _ O) as [E|[_ E]]; rewrite E; lia.
+Qed.
 Theorem version_step : forall w r F w' e wr,
   step_req w r F = (w', e, wr) ->
   st_version (v_st w) <= st_version (v_st w') <= st_version (v_st w) + 1.
-Proof.
-  intros w r F w' e wr H. pose proof (step_req_outcome _ _ _ _ _ _ H) as O. cbv zeta in O.
-  destruct (oc_version _ _ _ _ _ _ _ O) as [E|[_ E]]; rewrite E; lia.
-Qed.
+Proof. intros. eapply version_step_gen. eapply step_req_outcome; eauto. Qed.
 
 (* ---------- pods are never created by a kill ---------- *)
 Lemma pod_ids_update : forall t i f l,
@@ -495,27 +606,63 @@ Proof. destruct p; cbn; intros; try discriminate; reflexivity. Qed.
 (* a job deleted and re-created under the same name is a new job *)
 Definition same_job (o : op) : Prop := match o with OReplaceJob _ => False | _ => True end.
 
+Lemma execute_final_ids : forall w a r F w' e wr,
+  is_final (st_phase (v_st w)) = true -> execute w a r F = (w', e, wr) -> pod_ids (w_pods w') = pod_ids (w_pods w).
+Proof.
+  intros w a r F w' e wr Hf H. unfold execute in H. rewrite (exec_final _ _ Hf) in H.
+  apply (kill_pods_ids true _ _ _ _ _ _ _ _ H).
+Qed.
+
+Lemma step_req_final_ids : forall w r F w' e wr,
+  is_final (st_phase (v_st w)) = true -> step_req w r F = (w', e, wr) -> pod_ids (w_pods w') = pod_ids (w_pods w).
+Proof.
+  intros w r F w' e wr Hf H. unfold step_req in H.
+  set (w0 := with_delays w (clean_pod_delay (c_delay (v_ctl w)) r)) in *.
+  destruct (c_job (v_ctl w0)); cbn [negb] in H; [|inversion H; reflexivity].
+  destruct (apply_policies_d (v_spec w0) (v_st w0) r) as [a delayed].
+  destruct delayed; [inversion H; reflexivity|].
+  destruct (execute w0 a r F) as [[w1 e1] wr1] eqn:Hx.
+  pose proof (execute_final_ids w0 a r F w1 e1 wr1 Hf Hx) as E. cbn in E.
+  destruct (negb e1 && negb (is_internal_action a)); inversion H; subst; cbn; exact E.
+Qed.
+
+Lemma fire_final_ids : forall w w' e wr,
+  is_final (st_phase (v_st w)) = true -> fire w = (w', e, wr) -> pod_ids (w_pods w') = pod_ids (w_pods w).
+Proof.
+  intros w w' e wr Hf H. unfold fire in H.
+  destruct (d_queue (c_delay (v_ctl w))) as [|[t cancelled] rest]; [inversion H; reflexivity|].
+  set (w0 := with_delays w _) in *.
+  destruct cancelled; [inversion H; reflexivity|].
+  destruct (c_job (v_ctl w0)); cbn [negb] in H; [|inversion H; reflexivity].
+  destruct (execute w0 (dt_action t) _ []) as [[w1 e1] wr1] eqn:Hx.
+  pose proof (execute_final_ids w0 _ _ _ w1 e1 wr1 Hf Hx) as E. cbn in E.
+  inversion H; subst; cbn; exact E.
+Qed.
+
+(* an action executed in a final phase keeps the phase, on both sides *)
+Lemma acted_final : forall w a w' e wr,
+  final_inv w -> acted w a w' e wr -> final_inv w' /\ st_phase (v_st w') = st_phase (v_st w).
+Proof.
+  intros w a w' e wr [Hf He] O. unfold acted in O. rewrite (exec_final _ a Hf) in O. cbn [fst snd] in O.
+  assert (Hp : st_phase (v_st w') = st_phase (v_st w)).
+  { assert (Hs : start_phase (st_phase (v_st w)) = st_phase (v_st w))
+      by (destruct (st_phase (v_st w)); try discriminate; reflexivity).
+    destruct (oc_core _ _ _ _ _ _ _ O) as [(_ & [E|E])|(b & _ & Hb & Hb' & _)]; try congruence.
+    cbn in Hb'. destruct Hb; congruence. }
+  split; auto. split; [congruence|].
+  destruct (oc_api _ _ _ _ _ _ _ O) as [E|[E|[E _]]]; try congruence.
+  rewrite E in Hf. discriminate.
+Qed.
+
 Lemma final_step : forall w o w' e wr,
   final_inv w -> same_job o -> step w o = (w', e, wr) ->
   final_inv w' /\ st_phase (v_st w') = st_phase (v_st w) /\
   incl (pod_ids (w_pods w')) (pod_ids (w_pods w)).
 Proof.
-  intros w o w' e wr [Hf He] Hsj H. destruct o; cbn in H.
+  intros w o w' e wr Hinv Hsj H. pose proof Hinv as [Hf He]. destruct o; cbn in H.
   - (* a request *)
-    pose proof (step_req_outcome _ _ _ _ _ _ H) as O. cbv zeta in O.
-    unfold step_req in H. rewrite (exec_final _ _ Hf) in H, O. cbn [fst snd] in O.
-    destruct (c_job (v_ctl w)); cbn [negb] in H;
-      [|inversion H; subst; repeat split; auto using incl_refl].
-    assert (Hp : st_phase (v_st w') = st_phase (v_st w)).
-    { assert (Hs : start_phase (st_phase (v_st w)) = st_phase (v_st w))
-        by (destruct (st_phase (v_st w)); try discriminate; reflexivity).
-      destruct (oc_core _ _ _ _ _ _ _ O) as [(_ & [E|E])|(b & _ & Hb & Hb' & _)]; try congruence.
-      cbn in Hb'. destruct Hb; congruence. }
-    split; [split|split]; auto.
-    + congruence.
-    + destruct (oc_api _ _ _ _ _ _ _ O) as [E|[E|[E _]]]; try congruence.
-      rewrite E in Hf. discriminate.
-    + rewrite (kill_pods_ids true _ _ _ _ _ _ _ _ H). apply incl_refl.
+    destruct (acted_final _ _ _ _ _ Hinv (step_req_outcome _ _ _ _ _ _ H)) as [A B].
+    repeat split; try apply A; auto. rewrite (step_req_final_ids _ _ _ _ _ _ Hf H). apply incl_refl.
   - inversion H; subst; clear H. cbn. repeat split; auto.
     rewrite pod_ids_update; [apply incl_refl|intros p; split; reflexivity].
   - inversion H; subst; clear H. cbn. repeat split; auto. rewrite pod_ids_api_delete. apply incl_refl.
@@ -532,6 +679,10 @@ Proof.
   - destruct Hsj.
   - inversion H; subst; clear H. cbn. repeat split; auto using incl_refl.
   - inversion H; subst; clear H. cbn. repeat split; auto using incl_refl.
+  - (* a delayed action expires *)
+    destruct (fire_outcome _ _ _ _ H) as (a & e0 & O).
+    destruct (acted_final _ _ _ _ _ Hinv O) as [A B].
+    repeat split; try apply A; auto. rewrite (fire_final_ids _ _ _ _ Hf H). apply incl_refl.
 Qed.
 
 Lemma run_cons : forall w o ops, run w (o :: ops) = run (fst (fst (step w o))) ops.
@@ -560,8 +711,8 @@ Lemma ver_step : forall w o w' e wr,
   ver_inv w -> same_job o -> step w o = (w', e, wr) -> ver_inv w' /\ st_version (w_st w) <= st_version (w_st w').
 Proof.
   intros w o w' e wr Hi Hsj H. unfold ver_inv in *. destruct o; cbn in H.
-  - pose proof (step_req_outcome _ _ _ _ _ _ H) as O. cbv zeta in O.
-    pose proof (version_step _ _ _ _ _ _ H) as V.
+  - pose proof (step_req_outcome _ _ _ _ _ _ H) as O.
+    pose proof (version_step_gen _ _ _ _ _ O) as V. unfold acted in O.
     destruct (oc_api _ _ _ _ _ _ _ O) as [E|[E|[_ E]]]; rewrite E; cbn; lia.
   - inversion H; subst; cbn; lia.
   - inversion H; subst; cbn; lia.
@@ -575,6 +726,9 @@ Proof.
   - destruct Hsj.
   - inversion H; subst; cbn; lia.
   - inversion H; subst; cbn; lia.
+  - destruct (fire_outcome _ _ _ _ H) as (a & e0 & O).
+    pose proof (version_step_gen _ _ _ _ _ O) as V. unfold acted in O.
+    destruct (oc_api _ _ _ _ _ _ _ O) as [E|[E|[_ E]]]; rewrite E; cbn; lia.
 Qed.
 
 Theorem version_monotone : forall ops w,
@@ -700,3 +854,21 @@ Example fault_nonvacuous :
   exists w', step_req w sync_req [FCreate 1 0] = (w', true, true) /\
              w_st w' = init_status one_task_spec (v_st w) /\ w_pods w' = [].
 Proof. eexists; repeat split; vm_compute; reflexivity. Qed.
+
+(* non-vacuity of the delayed-action theorems: PodPending -> RestartJob after a timeout; the pod
+   succeeds and the job completes; then the timer expires: the job stays Completed *)
+Definition delayed_spec : spec :=
+  mkSpec [mkTask 1 1 (Some 1) [] None] 1 None 3 [mkPolicy [EPodPending] ARestartJob None 2].
+Example delayed_action_example :
+  let w := init_world delayed_spec (mkStatus PhRunning 0 0 1 (mkC 1 0 0 0 0) 0 [(1%positive, mkC 1 0 0 0 0)] false false)
+                      [mkPod 1 0 PPending false false] (Some PgRunning) in
+  let pending := mkReq EPodPending None (Some 1%positive) (Some (1%positive, 0)) 0 0 2 in
+  let w1 := run w [OReq pending []] in
+  length (d_queue (c_delay (v_ctl w1))) = 1%nat /\ st_phase (v_st w1) = PhRunning /\
+  let w2 := run w1 [OPodPhase 1 0 PSucceeded; OSyncPods; OReq sync_req []] in
+  st_phase (v_st w2) = PhCompleted /\
+  let w3 := run w2 [OFire] in
+  st_phase (v_st w3) = PhCompleted /\ st_retry (v_st w3) = 0 /\ d_queue (c_delay (v_ctl w3)) = [] /\
+  (* the same timer on a job that is still Running restarts it *)
+  st_phase (v_st (run w1 [OFire])) = PhRestarting /\ st_retry (v_st (run w1 [OFire])) = 1.
+Proof. vm_compute. repeat split. Qed.
